@@ -113,7 +113,7 @@ CLAIMS.update({
     ref="DESIGN.md §5 C13, Appendix B"),
  "C14": dict(
     text="Coq theorems: a query addresses exactly the accepting connections with mapped requests and consecutive slots in connection order (c14_requests), the requester proceeds only when all replies are in (c14_waits_for_all) and yields them in slot = connection order (c14_yields_in_connection_order), a reply fills exactly its slot (c14_reply_matched); CachedRwLock: after a write through any clone every clone's next read/write_scratchpad starts from the updated list, scratchpad edits are local, the epoch invariant holds in every reachable state (c14_clones_*); instance under all short schedules. Tie: query benches with 0..6 connections, filters, maps, nested queries and capacity-1 replier mailboxes on 1..16 threads vs Sim.v + reply oracle; op sequences on the verbatim cached_rw_lock.rs vs CachedRw.v. Broadcast of one query (Broadcast.v: QueryBroadcaster::broadcast, BroadcasterInner::futures, BroadcastFuture::new/poll/drop and the lazily consumed reply iterator over an abstract task set and wake sink): for every number of repliers, every sequence of queries and filters, every order of completions / failures / spurious wake-ups between polls and inside the polls of other sub-futures, an Ok result carries exactly the replies of the accepting repliers of this query in connection order (c14_broadcast_replies), the slot/counter invariant is kept by every operation (c14_broadcast_invariant), and a Pending multi-replier broadcast leaves the parent armed so that the next wake-up notifies it and is recorded (c14_broadcast_pending_armed, c14_broadcast_wake_notifies, c14_broadcast_wake_recorded); tied to the code by running the verbatim broadcaster.rs with the real task_set.rs and diatomic-waker on the same scripted scenarios. The lock-free task set (TaskSetConc.v: every shared access of Task::wake_by_ref, take_scheduled, TaskIterator::next and the iterator's drop as one step, any number of wakers, spurious compare_exchange_weak failures, SC interleavings): an inductive invariant (c14_taskset_invariant) gives that the linked lists are never corrupted (c14_taskset_no_panic) and that no completed wake-up is lost (c14_taskset_no_lost_wake, c14_taskset_quiescent_woken_is_scheduled); tied to the verbatim task_set.rs by step-by-step replay of every explored trace.",
-    note=SIMNOTE + "Broadcast.v uses an ABSTRACT task set driven sequentially; the lock-free TaskSet has its own model and proof (TaskSetConc.v) under sequential consistency, but the two are not composed formally and the countdown/notification law of the concurrent task set is not proved; the theorems exclude runs that hit the model's loop bound (result BRFuel, never observed); connect-during-run is covered only by the CachedRw theorems.",
+    note=SIMNOTE + "Broadcast.v uses an ABSTRACT task set driven sequentially; the lock-free TaskSet has its own model and proof (TaskSetConc.v) under sequential consistency, but the two are not composed formally the countdown law of the concurrent task set is proved step-wise (c14_taskset_countdown, c14_taskset_armed_push_notifies); the theorems exclude runs that hit the model's loop bound (result BRFuel, never observed); connect-during-run is covered only by the CachedRw theorems.",
     technique="Coq proof (query step lemmas + CachedRw invariant) + differential bench / op-sequence correspondence + reply oracle + scripted broadcast scenarios on mirrored broadcaster.rs vs Broadcast.v + task-set trace replay in TaskSetConc.v",
     ref="DESIGN.md §5 C14"),
  "C19": dict(
